@@ -298,4 +298,32 @@ Section PR.
     - intros p i c c' t t' _ [f1 IHc] _ [f2 IHt]. exists (Nat.max f1 f2). intros f Hf.
       rewrite IHc by lia. rewrite IHt by lia. reflexivity.
   Qed.
+  (* same fuel: a getter that answers the followed references identically gives the same expansion *)
+  Lemma expand_agree : forall f (g g' : getter) p n t, expand V f g p n = Some t ->
+    (forall q w b, Reach g p n q w b -> g' q w = Some b) -> expand V f g' p n = Some t.
+  Proof.
+    induction f; intros g g' p n t H Hag; cbn in *; [discriminate|].
+    destruct n; auto.
+    - destruct (expand V f g (p ++ k) n) eqn:E; [|discriminate].
+      rewrite (IHf g g' _ _ _ E); auto. intros; apply Hag; apply Reach_short; auto.
+    - assert (G : forall l i r,
+        (forall j c q w b, nth_error l j = Some c -> Reach g (p ++ [i + j]%nat) c q w b -> g' q w = Some b) ->
+        (fix go (l : list snode) (i : nat) : option (list node) :=
+           match l with [] => Some [] | c :: t => match expand V f g (p ++ [i]) c, go t (S i) with Some c', Some t' => Some (c' :: t') | _, _ => None end end) l i = Some r ->
+        (fix go (l : list snode) (i : nat) : option (list node) :=
+           match l with [] => Some [] | c :: t => match expand V f g' (p ++ [i]) c, go t (S i) with Some c', Some t' => Some (c' :: t') | _, _ => None end end) l i = Some r).
+      { induction l as [|a l IHl]; intros i r Hl Hr; auto.
+        destruct (expand V f g (p ++ [i]) a) eqn:E; [|discriminate].
+        rewrite (IHf g g' _ _ _ E).
+        - match type of Hr with match ?X with _ => _ end = _ => destruct X eqn:E2; [|discriminate] end.
+          rewrite (IHl (S i) l0); auto.
+          intros j c q w b Hj R. apply (Hl (S j) c q w b Hj). rewrite Nat.add_succ_r. exact R.
+        - intros q w b R. apply (Hl 0%nat a q w b eq_refl). rewrite Nat.add_0_r. exact R. }
+      match type of H with match ?X with _ => _ end = _ => destruct X eqn:E; [|discriminate] end.
+      rewrite (G cs 0%nat l); auto.
+      intros j c q w b Hj R. apply Hag. eapply Reach_full; eauto.
+    - destruct (g p v) eqn:E; [|discriminate].
+      rewrite (Hag p v s); [|apply Reach_here; auto].
+      apply (IHf g g'); auto. intros; apply Hag; eapply Reach_below; eauto.
+  Qed.
 End PR.
